@@ -324,6 +324,59 @@ theorem kernel_energy_le (h : PhysR g m) (s e estar : EF K) (kernel nu : ℕ) (o
 
 end
 
+/-! ## the whole hierarchy: the class of Laplace-domain models is closed under coarsening -/
+section closure
+variable {g : Grid K} {m : VM K}
+
+theorem restrictParam_closedK (P : K → Prop) (hadd : ∀ x y, P x → P y → P (x + y)) (csc : ℕ)
+    (g : Grid K) (f : F3 K) (hf : ∀ i j k, i < g.nx → j < g.ny → k < g.nz → P (f i j k))
+    (I J L : ℕ) (hI : I < (coarseGrid csc g).nx) (hJ : J < (coarseGrid csc g).ny)
+    (hL : L < (coarseGrid csc g).nz) : P (restrictParam csc g f I J L) := by
+  simp only [restrictParam, R3]
+  cases hx : coarsX csc <;> cases hy : coarsY csc <;> cases hz : coarsZ csc <;>
+    simp only [coarseGrid, cN, hx, hy, hz, if_true, if_false, Bool.false_eq_true] at hI hJ hL <;>
+    simp only [along, R1, if_true, if_false, Bool.false_eq_true] <;>
+    (repeat' apply hadd) <;> apply hf <;> omega
+
+theorem restrictParam_closed_allK (P : K → Prop) (hadd : ∀ x y, P x → P y → P (x + y)) (csc : ℕ)
+    (g : Grid K) (f : F3 K) (hf : ∀ i j k, P (f i j k)) (I J L : ℕ) :
+    P (restrictParam csc g f I J L) := by
+  simp only [restrictParam, R3]
+  cases hx : coarsX csc <;> cases hy : coarsY csc <;> cases hz : coarsZ csc <;>
+    simp only [along, R1, if_true, if_false, Bool.false_eq_true] <;>
+    (repeat' apply hadd) <;> apply hf
+
+/-- the coarse model of `solver.restriction` (sums over the children) is again a Laplace-domain
+model -/
+theorem PhysR.coarse (h : PhysR g m) (csc : ℕ) : PhysR (coarseGrid csc g) (coarseVM csc g m) := by
+  have hv : coarseVM csc g m =
+      { etaX := restrictParam csc g m.etaX, etaY := restrictParam csc g m.etaY
+        etaZ := restrictParam csc g m.etaZ, zeta := restrictParam csc g m.zeta } := by
+    unfold coarseVM; rw [matVM_eq]
+  rw [hv]
+  refine ⟨?_, ?_, ?_, ?_⟩
+  · exact restrictParam_closed_allK (fun z => 0 ≤ z) (fun x y hx hy => add_nonneg hx hy) csc g _ h.zeta
+  · exact restrictParam_closedK (fun z => z ≤ 0) (fun x y hx hy => add_nonpos hx hy) csc g _ h.etaX
+  · exact restrictParam_closedK (fun z => z ≤ 0) (fun x y hx hy => add_nonpos hx hy) csc g _ h.etaY
+  · exact restrictParam_closedK (fun z => z ≤ 0) (fun x y hx hy => add_nonpos hx hy) csc g _ h.etaZ
+
+theorem PhysR.reach {g0 : Grid K} {m0 : VM K} (h : PhysR g0 m0) {g : Grid K} {m : VM K}
+    (hr : Reach g0 m0 g m) : PhysR g m := by
+  induction hr with
+  | base => exact h
+  | step csc _ ih => exact ih.coarse csc
+
+/-- **on every level the recursion can reach** — every semicoarsening pattern, every depth —
+smoothing does not increase the energy norm of that level's error -/
+theorem smoothingC_energy_le_reach {g0 : Grid K} {m0 : VM K} (h : PhysR g0 m0)
+    {g : Grid K} {m : VM K} (hr : Reach g0 m0 g m) (s e estar : EF K) (nu clr : ℕ)
+    (he : PEC g e) (hs : PEC g estar)
+    (hsol : ∀ q, Interior g.nx g.ny g.nz q → amatAt g m estar q = s.get q) :
+    energy g m ((smoothingC g m s e nu clr).1.sub estar) ≤ energy g m (e.sub estar) :=
+  smoothingC_energy_le g m (h.reach hr) s e estar nu clr he hs hsol
+
+end closure
+
 /-! ## non-vacuity -/
 
 /-- a Laplace-domain model on a 2×2×2 grid over ℚ -/
